@@ -91,6 +91,7 @@ type worldOpts struct {
 	skewPct                       int
 	customAttrs                   bool
 	noCertPct                     int
+	nilUnknownPct                 int // storage flavour that answers (nil, nil) for an unknown entity
 }
 
 func (g G) drawIDP(o worldOpts) IDPCfg {
@@ -137,7 +138,7 @@ func (g G) drawIDP(o worldOpts) IDPCfg {
 		}
 	}
 	if o.signReqVariety {
-		c.WantSigned = g.pick("idp.wantSigned", "", "false", "true", "1", "0")
+		c.WantSigned = g.pick("idp.wantSigned", "", "false", "true", "1", "0", "true", "1", "True", "TRUE", "T", "t", " true ", "yes", "False", "01")
 	}
 	if o.metaVariety {
 		if g.chance("idp.metaSig", 50) {
@@ -190,12 +191,13 @@ func (g G) drawSP(i int, o worldOpts, hardURL bool) SPCfg {
 	c.CertWrap = g.chance(fmt.Sprintf("sp%d.wrap", i), 30)
 	c.MDPrefix = g.pick(fmt.Sprintf("sp%d.mdp", i), "", "default", "exotic")
 	if o.signReqVariety {
-		c.AuthnRequestsSigned = g.pick(fmt.Sprintf("sp%d.ars", i), "", "false", "true", "1", "0")
+		c.AuthnRequestsSigned = g.pick(fmt.Sprintf("sp%d.ars", i), "", "false", "true", "1", "0", "true", "1", "True", "TRUE", "t", " true ", "yes", " 1")
 	}
 	if o.acsVariety {
 		n := g.rng(fmt.Sprintf("sp%d.nacs", i), 1, 4)
 		for k := 0; k < n; k++ {
-			b := g.pick(fmt.Sprintf("sp%d.acs%d.b", i, k), BindPost, BindRedirect, BindPost, BindRedirect, BindArtifact, BindPAOS, "urn:example:binding:unknown")
+			b := g.pick(fmt.Sprintf("sp%d.acs%d.b", i, k), BindPost, BindRedirect, BindPost, BindRedirect, BindArtifact, BindPAOS, "urn:example:binding:unknown",
+				BindPost, BindRedirect, BindSimpleSign, BindSOAP, "urn:oasis:names:tc:SAML:2.0:bindings:URI", "urn:oasis:names:tc:SAML:2.0:bindings:http-post", BindPost+" ", "urn:oasis:names:tc:SAML:1.0:profiles:browser-post", "")
 			a := ACSCfg{Binding: b, Index: g.pick(fmt.Sprintf("sp%d.acs%d.i", i, k), "0", "1", "2", "7", "65535"), URL: fmt.Sprintf("%s/acs%d%s", base, k, q)}
 			a.IsDefault = g.pick(fmt.Sprintf("sp%d.acs%d.d", i, k), "", "", "true", "false", "1", "0")
 			c.ACS = append(c.ACS, a)
@@ -297,6 +299,7 @@ func (g G) drawWorld(o worldOpts) WorldCfg {
 		w.ParkBody = g.chance("parkBody", 30)
 		w.SharedSP = g.chance("sharedSP", 50)
 	}
+	w.NilUnknown = g.chance("nilUnknown", o.nilUnknownPct)
 	return w
 }
 
@@ -362,7 +365,7 @@ func (g G) drawFault(label string, pct int) string {
 	if !g.chance(label+".on", pct) {
 		return ""
 	}
-	return g.pick(label+".kind", "err", "err", "err", "nil_record", "key_without_cert", "cert_without_key", "empty_cert", "partial_err")
+	return g.pick(label+".kind", "err", "err", "err", "nil_record", "key_without_cert", "cert_without_key", "empty_cert", "partial_err", "err_canceled", "err_notfound", "err_deadline", "err_eof")
 }
 
 // boundaryAdvance draws a clock advance with point masses on interesting instants.
@@ -413,6 +416,12 @@ func (g G) planC01() *Plan {
 		p.World.Presessions = append(p.World.Presessions, ps)
 	}
 	n := g.rng("nsteps", 3, 40)
+	sessRange := 8
+	if g.chance("soak", soakPct) {
+		n = g.rng("nsoak", 120, 400)
+		sessRange = 64
+		p.Family += "+soak"
+	}
 	faultPct := g.pick("faultPct", "0", "0", "10", "25")
 	fp := 0
 	fmt.Sscanf(faultPct, "%d", &fp)
@@ -422,7 +431,7 @@ func (g G) planC01() *Plan {
 		case 0:
 			p.Steps = append(p.Steps, Step{K: "send", Msg: g.drawSSO(lab+".sso", &p.World, g.intn(lab+".sp", len(p.World.SPs)))})
 		case 1:
-			m := &MsgSpec{Kind: "callback", Session: g.intn(lab+".sess", 8), Replica: g.intn(lab+".rep", 2),
+			m := &MsgSpec{Kind: "callback", Session: g.intn(lab+".sess", sessRange), Replica: g.intn(lab+".rep", 2),
 				IDMode:  g.pick(lab+".idmode", "session", "session", "session", "session", "unknown", "empty", "huge", "literal"),
 				IDPlace: g.pick(lab+".place", "query", "query", "form", "both", "form-other-query")}
 			if m.IDMode == "literal" {
@@ -442,17 +451,17 @@ func (g G) planC01() *Plan {
 		case 2:
 			p.Steps = append(p.Steps, Step{K: "resume", Pick: g.intn(lab+".pick", 8), Fault: g.drawFault(lab+".f", fp)})
 		case 3:
-			p.Steps = append(p.Steps, Step{K: "mutate", Mut: "complete", A: g.intn(lab+".sess", 8), B: g.intn(lab+".user", 3)})
+			p.Steps = append(p.Steps, Step{K: "mutate", Mut: "complete", A: g.intn(lab+".sess", sessRange), B: g.intn(lab+".user", 3)})
 		case 4:
 			p.Steps = append(p.Steps, Step{K: "advance", Ns: g.drawAdvance(lab+".adv", nil)})
 		case 5:
 			p.Steps = append(p.Steps, Step{K: "restart", Replica: g.intn(lab+".rep", 2)})
 		case 6:
-			p.Steps = append(p.Steps, Step{K: "mutate", Mut: "deleteRequest", A: g.intn(lab+".sess", 8)})
+			p.Steps = append(p.Steps, Step{K: "mutate", Mut: "deleteRequest", A: g.intn(lab+".sess", sessRange)})
 		case 7:
 			p.Steps = append(p.Steps, Step{K: "mutate", Mut: "rotateKey"})
 		case 8:
-			p.Steps = append(p.Steps, Step{K: "mutate", Mut: "uncomplete", A: g.intn(lab+".sess", 8)})
+			p.Steps = append(p.Steps, Step{K: "mutate", Mut: "uncomplete", A: g.intn(lab+".sess", sessRange)})
 		case 9:
 			p.Steps = append(p.Steps, Step{K: "finish", Pick: g.intn(lab+".pick", 8)})
 		}
